@@ -14,13 +14,15 @@ EXPLANATION = (
     "and the imaginary part, that the returned component is the canonical correctly rounded value of the exact component -- for "
     "products the component a*c - b*d is built from the same four product terms (precise bit-vector products for small shapes, "
     "shared uninterpreted product terms for wide ones), so no nonlinear reasoning is required of the solver.  mpc equality against "
-    "mpc and mpf operands is compared with exact componentwise equality.  Division/reciprocal/negative powers (a few-ulp bound, "
-    "not correct rounding) are outside this check."
+    "mpc, mpf, Python int, float and complex operands is compared with exact componentwise equality.  mpc_pow_int / z**n for n >= 0 "
+    "on its exact path (complex_int_pow on the aligned integer mantissas, then one rounding per part) is compared with the exact "
+    "power built by repeated bit-vector multiplication.  Division/reciprocal/negative powers (a few-ulp bound, not correct "
+    "rounding) are outside this check."
 )
 TRUSTED = _c02.TRUSTED
 ASSUMPTIONS = _c02.ASSUMPTIONS + ["relative exponents of the components are concrete per obligation (grid); one base exponent per operand symbolic in +-2^30"]
 BUDGET = {'quick': dict(ob_deadline_s=120, total_s=165), 'thorough': dict(ob_deadline_s=900, total_s=2400)}
-BOUNDS = {'quick': 'component mantissas 1..9 bits (products: 3..5 bits precise, 20x20 abstract), component offsets -3..3, precisions 2..8, all five modes',
+BOUNDS = {'quick': 'component mantissas 1..9 bits (products: 3..5 bits precise, 20x20 abstract), component offsets -3..3, precisions 2..8, all five modes; z**n for n <= 5 with 2..5-bit components',
           'thorough': 'components up to 53 bits with abstract products, larger offsets'}
 
 
@@ -78,6 +80,30 @@ def obligations(tier, seed=0):
     for zbc in ([3, 0], [3, 2]):
         for fn in ('__eq__', '__ne__'):
             add('ceq', fn=fn, rhs='mpf', zbc=zbc, wbc=[3, 3], zoff=0, woff=0, off=0)
+    # equality against Python int / float / complex
+    for fn in ('__eq__', '__ne__'):
+        add('ceq', fn=fn, rhs='int', zbc=[3, 0], wbc=[3, 0], zoff=0, woff=0, off=0)
+        add('ceq', fn=fn, rhs='int', zbc=[3, 2], wbc=[4, 0], zoff=0, woff=0, off=-1)
+        add('ceq', fn=fn, rhs='int', zbc=[3, 0], wbc=[5, 0], zoff=0, woff=0, off=2)
+        add('ceq', fn=fn, rhs='float', zbc=[3, 0], wbc=[3, 0], zoff=0, woff=0, off=0, wexp=-2, wneg=[1, 0])
+        add('ceq', fn=fn, rhs='float', zbc=[4, 1], wbc=[4, 0], zoff=-3, woff=0, off=0, wexp=5)
+        add('ceq', fn=fn, rhs='complex', zbc=[3, 2], wbc=[3, 2], zoff=1, woff=1, off=0, wexp=-2, wneg=[1, 0])
+        add('ceq', fn=fn, rhs='complex', zbc=[3, 2], wbc=[3, 0], zoff=1, woff=1, off=0, wexp=3)
+        add('ceq', fn=fn, rhs='complex', zbc=[3, 3], wbc=[4, 3], zoff=0, woff=0, off=-1, wexp=0, wneg=[0, 1])
+    # z ** n, n >= 0, exact path (exact size < 10000 bits): each part correctly rounded
+    for zbc, zoff, n, prec in [([3, 3], 0, 3, 4), ([3, 2], 1, 4, 5), ([2, 3], -2, 5, 6), ([4, 4], 0, 2, 3), ([5, 3], 2, 1, 2), ([3, 3], 0, 0, 4)]:
+        for rnd in RNDS:
+            add('cpow_int', zbc=zbc, zoff=zoff, n=n, prec=prec, rnd=rnd)
+    for n in (2, 3, 4, 5):
+        add('cpow_int', zbc=[0, 4], zoff=0, n=n, prec=3, rnd='n')      # purely imaginary base: the i**n rotation branch
+        add('cpow_int', zbc=[4, 0], zoff=0, n=n, prec=3, rnd='n')
+    for n in (0, 1, 2, 3):
+        add('cpow_int', zbc=[2, 3], zoff=-2, n=n, prec=6, rnd='n', entry='op')
+    if thorough:
+        for rnd in RNDS:
+            add('cpow_int', zbc=[5, 5], zoff=1, n=6, prec=8, rnd=rnd)
+            add('cpow_int', zbc=[8, 8], zoff=-3, n=3, prec=10, rnd=rnd)
+            add('cpow_int', zbc=[3, 3], zoff=0, n=9, prec=12, rnd=rnd)
     if thorough:
         for rnd in RNDS:
             add('cmul', prec=6, rnd=rnd, fn='mpc_mul', zbc=[8, 9], wbc=[9, 7], zoff=3, woff=-2)
